@@ -207,7 +207,8 @@ def coq_list(items, per_line=8):
 
 def coq_make(targets, timeout=1500):
     """make the given .vo targets (paths relative to coq/); returns (ok, log)"""
-    if not os.path.exists(os.path.join(COQ, "Makefile")):
+    mk, pj = os.path.join(COQ, "Makefile"), os.path.join(COQ, "_CoqProject")
+    if not os.path.exists(mk) or os.path.getmtime(pj) > os.path.getmtime(mk):
         p = run(["coq_makefile", "-f", "_CoqProject", "-o", "Makefile"], cwd=COQ, timeout=120)
         if p.returncode != 0:
             return False, p.stdout + p.stderr
